@@ -154,9 +154,16 @@ def run(tier, replay_file=None):
         rng.shuffle(hs); hs = hs[:6000]
     # every history Create, <something planned for Model.end_round>, RunStep (the statistics are collected after end_round)
     he, _ = gen.histories("Abm", consts(2, 2, 2, '{"Create","PlanEnd","RunStep"}', ahead=0), 3)
-    hs = hs + he
+    # the second numeric property: agents created with / without it, agents that give it to themselves while acting, the same
+    # model reset and configured again with a population that has it
+    hw, _ = gen.histories("Abm", dict(consts(4, 2, 2, '{"Create","PropW","PlanSet","Reset","Configure","RunStep"}', ahead=0,
+                                             configs='{<< <<"a",1,2,5>> >>, << <<"a",1,0>> >>}'), Vals='{2, 5}'), 4)
+    hw = [h for h in hw if h[-1]["op"] == "RunStep" and any("w" in x or x.get("kind") == "w" or (x["op"] == "Configure") for x in h)]
+    hs = hs + he + (hw if not quick else rng.sample(hw, min(len(hw), 2500)))
+    R.cov["second_property_histories"] = len(hw)
     R.cov["end_round_histories"] = len(he)
-    h2, _ = gen.histories("Abm", consts(8, 60, 8, '{"Create","Delete","SetState","SetVal","PlanSet","PlanDel","PlanEnd","RunStep","Run"}', runspecs=RUNSPECS),
+    h2, _ = gen.histories("Abm", consts(8, 60, 8, '{"Create","Delete","SetState","SetVal","PlanSet","PlanDel","PlanEnd","PropW","Configure","Reset","RunStep","Run"}', runspecs=RUNSPECS,
+                                       configs='{<< <<"a",2,2,5>>, <<"b",1,0>> >>, << <<"a",1,0>>, <<"b",2,2,0-4>> >>}'),
                           20 if quick else 40, simulate=50 if quick else 1000, seed=common.seed() + 3, cache=False)
     R.cov["bfs_histories"], R.cov["sim_histories"] = len(hs), len(h2)
     cells = 0
